@@ -1,10 +1,11 @@
 #!/venv/bin/python -B
+# calibration of C09's linear step budget: max steps per character over the generated corpus and adversarial runs
 import sys, os
-sys.path.insert(0, os.path.dirname(os.path.dirname(os.path.abspath(__file__))))
+sys.path.insert(0, '/verif')
 from sim import core
 from checks import c09
 se = core.load_se()
-mx = 0; rows = []
+rows = []
 for i in range(int(sys.argv[1])):
     case = c09.generate(core.run_seed(0, "C09", i), i, "thorough")
     s = case["s"]
@@ -13,10 +14,14 @@ for i in range(int(sys.argv[1])):
     try: p.parse(s)
     except Exception: pass
     st = core.STEPS.stop()
-    q = c09.quad_term(s)
-    rows.append((st, len(s), q))
-import itertools
-for A, B, C in [(35, 10, 250), (20, 6, 200), (15, 8, 150), (12, 4, 100)]:
-    r = max(st / (A * n + B * q + C) for st, n, q in rows)
-    print(A, B, C, "max ratio %.3f" % r)
-print("max steps/len", max(st / max(n, 1) for st, n, q in rows), "max steps", max(rows))
+    rows.append((st, len(s), s[:60]))
+for A, C in [(35, 250), (30,400), (25, 500), (40,200)]:
+    r = max((st / (A * n + C), n, s) for st, n, s in rows)
+    print(A, C, "max ratio %.3f" % r[0], r[1:])
+print(max((st/max(n,1), st, n, s) for st,n,s in rows))
+# adversarial
+for s in ["M0,0"+"L1,1z"*5000, "M0,0"+"z"*10000, "z"+"L1,1z"*5000, "M0,0"+" 1,1"*5000+"z"*50, "M0,0 "+"T1,1"*4000, "M0,0"+"a1,1 0 0 0 1,1z"*3000]:
+    p=se.Path(); core.STEPS.start(None)
+    try: p.parse(s)
+    except Exception as e: print('exc',e)
+    st=core.STEPS.stop(); print(len(s), st, st/len(s))
